@@ -171,6 +171,20 @@ def make_box(coords, box, exact):
         elif mode == "miss" and k == box.get("axis", 0):
             # the two outermost candidates on either side lie strictly beyond every coordinate
             i0, i1 = (n - 2, n - 1) if a % 2 else (0, 1)
+        elif mode == "touch" and k == box.get("axis", 0):
+            # the box meets the coordinate range on one face from outside: the extreme coordinate itself is the
+            # face (the same float, so the comparison is exact on any lattice)
+            vals = [c[k] for c in coords] or [0.0]
+            pad = 1.0 + 0.25 * (max(vals) - min(vals))
+            if a % 2:
+                lo.append(float(max(vals)))
+                hi.append(float(max(vals) + pad * (1 + d % 3)))
+            else:
+                hi.append(float(min(vals)))
+                lo.append(float(min(vals) - pad * (1 + d % 3)))
+            continue
+        elif mode == "touch":
+            i0, i1 = 0, n - 1
         elif mode == "point":
             below = [i for i, c in enumerate(cand) if c <= elem[k]] if exact else [i for i, c in enumerate(cand) if c < elem[k]]
             i0 = below[-1] if below else 0
